@@ -6,7 +6,7 @@ RULE = ("random call sequences (fingerprint_tcp/mtu/uptime, fingerprint_http, im
         "extra_hops/uptime, impersonate_mtu) over packets given as sniffed (explicit fields) AND as constructed Scapy packets with "
         "unset automatic fields (chksum/ihl/dataofs/len), with PSH/URG/ECE bits, options and payloads, over bytes / bytearray / "
         "ReceiveBuffer payload buffers (incl. one with a consumed prefix), with before/after snapshots around EVERY call of: "
-        "bytes(packet), command(), the explicit-field map of every layer, buffer bytes/length/search cursors, and a deep dump of "
+        "bytes(packet), command(), the explicit-field map of every layer and the identity / parent links of its layer objects (the returned packet must share no layer with its input, and edits to it must not reach the input), buffer bytes/length/search cursors, and a deep dump of "
         "every database record, label and signature; non-trivial = sequence with >= 1 impersonation by label and >= 1 HTTP call")
 ASSUMPTIONS = ["the Coq side is a frame lemma over a heap model of the calls (thin); the decisive evidence is this monitor"]
 EXHAUSTIVE = {}
@@ -21,7 +21,8 @@ def generate(R, tier):
             break
         c = dict(c, stream="calls")
         # signatures with every flag-affecting quirk so that impersonation has to set/clear PSH, URG, ACK, ...
-        c["sigs"] = ["*:64:0:*:mss*10,6:mss,sok,ts,nop,ws:df,id+%s:0" % q for q in ("", ",pushf+", ",urgf+", ",ack-", ",seq-", ",ecn", ",uptr+")]
+        c["sigs"] = ["*:64:0:*:mss*10,6:mss,sok,ts,nop,ws:df,id+%s:%s" % (q, pc) for q in ("", ",pushf+", ",urgf+", ",ack-", ",seq-", ",ecn", ",uptr+")
+                     for pc in ("0", "*", "+")]
         c["flagsets"] = [R.choice([0, 0x08, 0x20, 0x40, 0xC0]) for _ in c["pkts"]]
         yield c
 
@@ -52,9 +53,18 @@ def impl_init():
         layers = []
         l = p
         while l is not None and l.name != "NoPayload":
-            layers.append((l.name, copy.deepcopy(dict(l.fields)), repr(l.fields.get("flags"))))
+            layers.append((l.name, copy.deepcopy(dict(l.fields)), repr(l.fields.get("flags")), id(l), id(l.underlayer) if l.underlayer is not None else None,
+                           id(l.payload)))
             l = l.payload
         return (p.command(), layers, bytes(p))
+
+    def layer_ids(p):
+        out = set()
+        l = p
+        while l is not None and l.name != "NoPayload":
+            out.add(id(l))
+            l = l.payload
+        return out
 
     def snap_buf(b):
         if isinstance(b, ReceiveBuffer):
@@ -125,6 +135,23 @@ def impl_init():
                         res = impersonate_tcp(pkts[j], raw_signature=R.choice(c["sigs"]), extra_hops=o["extra_hops"], database=db)
                     if res is pkts[j]:
                         problems.append("op %d %s: impersonate_tcp returned its input object" % (k, o))
+                    elif layer_ids(res) & layer_ids(pkts[j]):
+                        problems.append("op %d %s: the packet returned by impersonate_tcp shares a layer object with its input (not a new packet)" % (k, o))
+                    else:
+                        # writing to the result must not reach the input
+                        mid = snap_pkt(pkts[j])
+                        l = res
+                        while l is not None and l.name != "NoPayload":
+                            if l.name == "Raw":
+                                l.load = b"overwritten by the caller"
+                            elif l.name == "TCP":
+                                l.seq = (l.seq + 1) % 2 ** 32
+                                l.options = list(l.options) + [("NOP", None)]
+                            elif l.name in ("IP", "IPv6"):
+                                l.src, l.dst = l.dst, l.src
+                            l = l.payload
+                        if snap_pkt(pkts[j]) != mid:
+                            problems.append("op %d %s: editing the packet returned by impersonate_tcp changed the input packet" % (k, o))
                 elif o["op"] == "imp_mtu":
                     j = o["pkt"] * 2 + R.randrange(2)
                     exempt = j
